@@ -795,6 +795,10 @@ class CSSStyleSheet(cssutils.stylesheets.StyleSheet):
                 if _clean:
                     self._cleanNamespaces()
 
+            if rule not in self._cssRules:
+                # doublette or cleaned again, must not get this sheet as parent
+                return
+
         # @variables
         elif rule.type == rule.VARIABLES_RULE:
             if inOrder:
